@@ -4,6 +4,7 @@ import (
 	"fmt"
 	"sort"
 	"strings"
+	"time"
 
 	"verifmc/drv"
 	"verifmc/engine"
@@ -420,8 +421,7 @@ func c02UniverseFor(c *engine.Ctx, k drv.Kind) (*c02Universe, int) {
 	u := &c02Universe{buckets: []string{"aaa", "bbb"}, keys: []string{"k", "d/x"}, bodies: []string{"A", "BB"}}
 	depth := 4
 	if !quick(c) {
-		u.keys = []string{"k", "d/x", "d/y"}
-		depth = 0
+		depth = 0 // the 2-bucket/2-key universe is run to closure
 	}
 	return u, depth
 }
@@ -429,7 +429,9 @@ func c02UniverseFor(c *engine.Ctx, k drv.Kind) (*c02Universe, int) {
 func runC02(c *engine.Ctx) {
 	c.Rule = "state = canonical API snapshot (all buckets, listings, bodies, ETags, metadata) + raw storage dump; transition = one mutating request (create/delete bucket, put, delete, multi-delete, copy) checked against the A.1 store model; every read (GET/HEAD per key, list, head-bucket, list-buckets) is evaluated in every new state; distinct_nontrivial = distinct canonical states reached"
 	c.Assumptions = append(c.Assumptions, "handler driven directly via ServeHTTP (no net/http transport)", "reference model verifmc/model.Store is the trusted base", "error messages/Resource fields not compared, only status and Code")
-	for _, cfg := range c02Configs(c) {
+	cfgs := c02Configs(c)
+	c.SpecBudget = c.Budget() / time.Duration(len(cfgs))
+	for _, cfg := range cfgs {
 		cfg := cfg
 		u, depth := c02UniverseFor(c, cfg.Kind)
 		ops := c02BuildOps(u)
@@ -437,6 +439,15 @@ func runC02(c *engine.Ctx) {
 		engine.RunSeq(c, engine.SeqSpec{Name: name, World: worldName(cfg), MaxDepth: depth,
 			New: func() (engine.Sys, error) { return newC02Sys(cfg, u, ops) }})
 		c.Bounds[name] = map[string]interface{}{"buckets": u.buckets, "keys": u.keys, "bodies": u.bodies, "ops": len(ops), "max_depth": depth}
+		if !quick(c) && !cfg.AutoBucket {
+			// larger universe (third key sharing the directory, empty body), bounded depth
+			u3 := &c02Universe{buckets: []string{"aaa", "bbb"}, keys: []string{"k", "d/x", "d/y"}, bodies: []string{"A", "BB", ""}}
+			ops3 := c02BuildOps(u3)
+			name3 := "C02/" + worldName(cfg) + "/3keys"
+			engine.RunSeq(c, engine.SeqSpec{Name: name3, World: worldName(cfg), MaxDepth: 5,
+				New: func() (engine.Sys, error) { return newC02Sys(cfg, u3, ops3) }})
+			c.Bounds[name3] = map[string]interface{}{"buckets": u3.buckets, "keys": u3.keys, "bodies": u3.bodies, "ops": len(ops3), "max_depth": 5}
+		}
 	}
 }
 
